@@ -498,14 +498,16 @@ def cli(args, cwd, env=None):
     return p.returncode
 
 
-def cli_single(tmp, name, data, key_name, kid, alg, ctx, action=None, kid_text=None):
-    """The real CLI in a fresh subprocess and directory: (exit status, output bytes | None)."""
+def cli_single(tmp, name, data, key_name, kid, alg, ctx, action=None, kid_text=None, cwd=None):
+    """The real CLI in a fresh subprocess and directory: (exit status, output bytes | None).  cwd: run from that directory (the
+    context spellings '.' and '' name the working directory), files by absolute path."""
     d = os.path.join(tmp, name)
     shutil.rmtree(d, ignore_errors=True)
     os.makedirs(d)
     with open(os.path.join(d, "in.suit"), "wb") as fh:
         fh.write(data)
-    args = ["sign", "single-level", "--input-envelope", "in.suit", "--output-envelope", "out.suit", "--key-name", key_name,
+    fin, fout = ("in.suit", "out.suit") if cwd is None else (os.path.join(d, "in.suit"), os.path.join(d, "out.suit"))
+    args = ["sign", "single-level", "--input-envelope", fin, "--output-envelope", fout, "--key-name", key_name,
             "--key-id", kid_text if kid_text is not None else str(kid), "--alg", alg, "--kms-script", kms_script(), "--sign-script", sign_script()]
     if ctx is not None:
         args += ["--context", ctx]
@@ -515,7 +517,7 @@ def cli_single(tmp, name, data, key_name, kid, alg, ctx, action=None, kid_text=N
     with open(fo, "wb") as fh:
         fh.write(STALE)
     os.utime(fo, (time.time() + 3600, time.time() + 3600))
-    rc = cli(args, d)
+    rc = cli(args, d if cwd is None else cwd)
     out = read_output(fo)
     shutil.rmtree(d, ignore_errors=True)
     return rc, out
